@@ -299,9 +299,13 @@ package bgp
 //@   modifies nothing
 //@   ensures result != nil && fresh(result)
 //@ func GetRouteDistinguisher
+//@   tag C05 C04
 //@   requires len(data) >= 8
 //@   modifies nothing
 //@   ensures result != nil
+// from C04 (decode then encode gives the octets back): an RD of a type the speaker does not know keeps its six
+// value octets (in memory of its own, not the receive buffer)
+//@   ensures typeOf(result) == (*RouteDistinguisherUnknown) ==> len(result.(*RouteDistinguisherUnknown).Value) == 6 && (forall k int :: 0 <= k && k < 6 ==> result.(*RouteDistinguisherUnknown).Value[k] == data[2+k])
 
 //@ func (*LabeledIPAddrPrefix).decodeFromBytes
 //@   modifies l.*
